@@ -119,6 +119,20 @@ macro_rules! scat {
     ($v:ident; $($t:ty),* $(,)?) => { $( $v.push((stringify!($t), schema_ty::<$t> as SRun)); )* };
 }
 
+/// the zero-sized workload's types that have a schema (sequence and set kinds; maps by key type)
+pub fn zst_schema_catalogue() -> Vec<(&'static str, SRun)> {
+    let mut v: Vec<(&'static str, SRun)> = Vec::new();
+    scat!(v;
+        Vec<()>, Vec<[u8; 0]>, Vec<((), ())>, Vec<([(); 0], [(); 0])>, Vec<([(); 0],)>, Vec<PhantomData<u8>>,
+        Vec<core::ops::RangeFull>, Vec<[(); 5]>, Vec<[[(); 2]; 0]>, Vec<((), PhantomData<String>, [u64; 0])>,
+        Vec<((), PhantomData<u8>)>, Vec<(PhantomData<u8>, PhantomData<u16>, ())>, Vec<[((), ()); 3]>,
+        Vec<(((), ()), ((), ()))>, Vec<(core::ops::RangeFull, core::ops::RangeFull)>,
+        VecDeque<()>, VecDeque<[u16; 0]>, VecDeque<((), ())>, LinkedList<()>, LinkedList<((), ())>,
+        BTreeSet<()>, BTreeSet<[u8; 0]>, BTreeSet<((), ())>, HashSet<()>, HS<()>, HSC<((), ())>,
+    );
+    v
+}
+
 pub fn schema_catalogue() -> Vec<(&'static str, SRun)> {
     let mut v: Vec<(&'static str, SRun)> = Vec::new();
     scat!(v;
